@@ -746,7 +746,6 @@ theorem accF_eq_readNumber (sep : Bool) (cs : List UInt8) :
 /-! ## from the automaton to `parseNumber` -/
 
 theorem finish_not_syntax (g : Globals) (neg : Bool) (s : S2)
-    (hred : ∀ rm neg sig exp trunc, ∃ r, Gen.RoundingMode.reduce128 rm neg sig exp trunc = .ok r)
     (h1 : ¬ ((!s.caneof) || (!s.sawdig)) = true) :
     ∃ r e, finish g neg s = .ok (r, e) ∧ (e = .nil ∨ e = .parseNumberRangeError) := by
   by_cases h2 : ((s.sig.w0 ||| s.sig.w1) == (0 : UInt64)) = true
@@ -755,8 +754,8 @@ theorem finish_not_syntax (g : Globals) (neg : Bool) (s : S2)
   · exact ⟨_, _, finish_big g neg s h1 h2 _ rfl h3, Or.inr rfl⟩
   by_cases h4 : decide (((if s.eneg then s.exp * (-1 : Int64) else s.exp) - s.nfrac) < (-6215 : Int64)) = true
   · exact ⟨_, _, finish_small g neg s h1 h2 _ rfl h3 h4, Or.inl rfl⟩
-  obtain ⟨r, hr⟩ := hred g.DefaultRoundingMode neg s.sig
-    (Go.conv (((if s.eneg then s.exp * (-1 : Int64) else s.exp) - s.nfrac) + (6176 : Int64)) : Int16) s.trunc
+  obtain ⟨r, hr⟩ := reduce128_call g.DefaultRoundingMode neg s.sig
+    (Go.conv (((if s.eneg then s.exp * (-1 : Int64) else s.exp) - s.nfrac) + (6176 : Int64)) : Int16) s.trunc h2
   have := finish_red g neg s h1 h2 _ rfl h3 h4 r hr
   by_cases h5 : decide (r.2 > (12287 : Int16)) = true
   · rw [if_pos h5] at this; exact ⟨_, _, this, Or.inr rfl⟩
@@ -766,11 +765,10 @@ theorem flags_init : flags (toS2 init1) = initF := rfl
 
 /-- `parseNumber` reports a syntax error exactly when the automaton does not accept -/
 theorem parseNumber_syntax_accF (g : Globals) (d : Go.Bytes) (neg sep : Bool)
-    (hred : ∀ rm neg sig exp trunc, ∃ r, Gen.RoundingMode.reduce128 rm neg sig exp trunc = .ok r)
     (hsz : d.size < 2^63) (r : Gen.Decimal) (e : Go.Err)
     (h : Gen.parseNumber g d neg sep = .ok (r, e)) :
     e = .parseNumberSyntaxError ↔ accF (frun sep d.toList initF) = false := by
-  rw [parseNumber_eq_run2 g d neg sep hred hsz] at h
+  rw [parseNumber_eq_run2 g d neg sep hsz] at h
   rw [← flags_init, ← run2_flags]
   cases hrun : run2 sep d.toList (toS2 init1) with
   | none =>
@@ -788,7 +786,7 @@ theorem parseNumber_syntax_accF (g : Globals) (d : Go.Bytes) (neg sep : Bool)
       · intro _
         cases h1 : s.caneof <;> cases h2 : s.sawdig <;> simp_all
       · intro _; exact h.symm
-    · obtain ⟨r', e', h1, h2⟩ := finish_not_syntax g neg s hred hc
+    · obtain ⟨r', e', h1, h2⟩ := finish_not_syntax g neg s hc
       rw [h1] at h
       injection h with h; injection h with _ h
       subst h
